@@ -50,7 +50,8 @@ RULE = (
     'mismatch, name of 256+ chars or non-ASCII). Non-trivial = a channel '
     'other than 0 of a multi-out/expanded unit is consumed, or a width-first '
     'unit is followed by later units, or the optimiser rewrote something, '
-    'or the spec is an invalid one. Distinct by sha1 of the spec.')
+    'or the spec is an invalid one. Distinct by sha1 of the spec.'
+    " limits stage: enumerated definitions with 1..255 control names and names of 1..255 bytes. Specs may declare manual controls (Control.add_name) after the function's parameters; every fourth definition is also read back from a definition file with and without keep_defs.")
 ASSUMPTIONS = [
     'Width-first classes are identified by name (LocalBuf, SetBuf, ClearBuf, '
     'MaxLocalBufs excluded, FFT, IFFT, PV_*, RandSeed, RandID).',
